@@ -31,6 +31,9 @@ type Case struct {
 	Red   bool   `json:"red,omitempty"`
 	NoAlt bool   `json:"noalt,omitempty"` // operand a is not usable as alternative comparand
 	ID    string `json:"id,omitempty"`
+	Hex   bool   `json:"hex,omitempty"`  // the value is printed with %x (strings with arbitrary bytes)
+	PT    string `json:"pt,omitempty"`   // the result type as %T prints it, when it differs from RT
+	Expr  string `json:"expr,omitempty"` // unary expression over a, when it is not a plain operator or conversion
 }
 
 var opSym = map[string]string{
@@ -102,10 +105,14 @@ func expand(base Case, forms, ctxs []string, sel *selector, emit func(Case)) {
 			k.Form, k.Ctx = f, ctx
 			switch ctx {
 			case "iface":
+				pt := k.RT
+				if k.PT != "" {
+					pt = k.PT
+				}
 				if k.Res == "PANIC" {
 					k.Want = "PANIC"
 				} else {
-					k.Want = k.Res + " " + k.RT
+					k.Want = k.Res + " " + pt
 				}
 			case "branch", "argcmp":
 				if boolRes {
@@ -183,6 +190,10 @@ func render(w *strings.Builder, k *Case) (needsMath bool) {
 	var expr string
 	untypedShift := false
 	switch {
+	case k.Expr != "":
+		a := mkOperand('V', "a", k.T, aval)
+		ops = []operand{a}
+		expr = k.Expr
 	case k.Op == "conv":
 		a := mkOperand('V', "a", k.T, aval)
 		ops = []operand{a}
@@ -234,6 +245,24 @@ func render(w *strings.Builder, k *Case) (needsMath bool) {
 		}
 	}
 	fmt.Fprintf(w, "func %s() {\n\tdefer rec(%q)\n", id, id)
+	if k.Hex {
+		switch k.Ctx {
+		case "assign":
+			w.WriteString(decls.String() + vdecls.String())
+			fmt.Fprintf(w, "\tvar r %s\n\tr = %s\n\tfmt.Printf(\"%%s %%x\\n\", %q, r)\n}\n", k.RT, expr, id)
+		case "return":
+			w.WriteString(vdecls.String())
+			fmt.Fprintf(w, "\tfmt.Printf(\"%%s %%x\\n\", %q, f%s(%s))\n}\n", id, id, strings.Join(args, ", "))
+			fmt.Fprintf(w, "func f%s(%s) %s {\n%s\treturn %s\n}\n", id, strings.Join(params, ", "), k.RT, decls.String(), expr)
+		case "iface":
+			w.WriteString(decls.String() + vdecls.String())
+			fmt.Fprintf(w, "\tvar i interface{} = %s\n\tfmt.Printf(\"%%s %%x %%T\\n\", %q, i, i)\n}\n", expr, id)
+		default: // arg
+			w.WriteString(decls.String() + vdecls.String())
+			fmt.Fprintf(w, "\tfmt.Printf(\"%%s %%x\\n\", %q, %s)\n}\n", id, expr)
+		}
+		return needsMath
+	}
 	switch k.Ctx {
 	case "assign":
 		w.WriteString(decls.String() + vdecls.String())
